@@ -531,6 +531,30 @@ where M: Manager<Terminal = TDDTerminal> + HasApplyCache<M, TDDOp>, M::InnerNode
     ensures r == opt_of_tv(sem3(edge.view(), |l: int| tv_of_choice(choice_at(choices@, l as u32)))),
     decreases edge.view(),
 //@end
+/// a function handle is modelled by its root edge (`Function::from_edge` wraps the edge together with the manager reference)
+pub fn from_edge<M: Manager>(manager: &M, e: M::Edge) -> (r: M::Edge) ensures r.view() == e.view() { e }
+// default methods of `TVLFunction` in oxidd-core/src/function.rs (the API constants f / t / u)
+//@fn file=crates/oxidd-core/src/function.rs path=trait:TVLFunction/fn:f selfcall=Self::> rename=tvl_f props=C11
+//@header
+fn tvl_f<M>(manager: &M) -> (res: M::Edge)
+where M: Manager<Terminal = TDDTerminal> + HasApplyCache<M, TDDOp>, M::InnerNode: HasLevel,
+//@spec
+    ensures res.view() == Tree::Leaf(0),
+//@end
+//@fn file=crates/oxidd-core/src/function.rs path=trait:TVLFunction/fn:t selfcall=Self::> rename=tvl_t props=C11
+//@header
+fn tvl_t<M>(manager: &M) -> (res: M::Edge)
+where M: Manager<Terminal = TDDTerminal> + HasApplyCache<M, TDDOp>, M::InnerNode: HasLevel,
+//@spec
+    ensures res.view() == Tree::Leaf(2),
+//@end
+//@fn file=crates/oxidd-core/src/function.rs path=trait:TVLFunction/fn:u selfcall=Self::> rename=tvl_u props=C11
+//@header
+fn tvl_u<M>(manager: &M) -> (res: M::Edge)
+where M: Manager<Terminal = TDDTerminal> + HasApplyCache<M, TDDOp>, M::InnerNode: HasLevel,
+//@spec
+    ensures res.view() == Tree::Leaf(1),
+//@end
 } // mod apply_rec
 } // mod rules
 } // verus!
